@@ -68,4 +68,13 @@ def kf_d14(cfg, prefix, v):
     return v["rule"] in ("ScreenOK", "CursorOK", "LogOK") and _has_early_wrap(cfg, prefix)
 
 
-PREDICATES = {"KF-D18": kf_d18, "KF-D14": kf_d14}
+def kf_d20(cfg, prefix, v):
+    """Static lines of dropped bars plus the live bars need more rows than the terminal has: the
+    height check only counts live bar lines, so a println/clear/suspend that has to erase the
+    static lines cannot reach the ones that scrolled out of the viewport and erases them partly."""
+    return (v["rule"] in ("ScreenOK", "LogOK") and cfg.get("mp") is not None and cfg.get("h", 99) <= 6
+            and v["op"] in ("mp_println", "mp_clear", "mp_suspend", "suspend", "println")
+            and any(o.get("op") == "drop" for o in prefix))
+
+
+PREDICATES = {"KF-D18": kf_d18, "KF-D14": kf_d14, "KF-D20": kf_d20}
